@@ -65,17 +65,17 @@ theorem C04_dtype_struct (cfg : Cfg) (sfh : Bool) (v : Val) (h : Val.Structy cfg
     (it is an upper bound of its arguments and stays within the side conditions of C01): the fold invariant of `privateReducedType`
     — "every element seen so far is an instance of the accumulator" — carried through by C01 (soundness), which is exactly where a
     `commonType` that returns the wrong argument breaks the proof.  `CommonUB` itself is proved only in part (`C04_common_*`). -/
-theorem C04_ptype_of_common (cfg : Cfg) (hl : ∀ s, (cfg.lower s).length = s.length) (U : CommonUB cfg) (v : Val)
-    (ok : v.OK) (tv : Val.TyOK cfg v) : inst cfg false (ptype cfg false v) v = true :=
-  (ptype_inst cfg hl U v.w v (Nat.le_refl _) ok tv).1
+theorem C04_ptype_of_common (cfg : Cfg) (sfh : Bool) (hl : ∀ s, (cfg.lower s).length = s.length) (U : CommonUB cfg sfh) (v : Val)
+    (ok : v.OK) (tv : Val.TyOK cfg v) : inst cfg sfh (ptype cfg sfh v) v = true :=
+  (ptype_inst cfg sfh hl U v.w v (Nat.le_refl _) ok tv).1
 
 /-- third law, from C01: what accepts the detailed type contains the value (rule off, fragment of `C01_sound_partial`) -/
 theorem C04_accepts_sound_partial (cfg : Cfg) (hl : ∀ s, (cfg.lower s).length = s.length) (t : Ty) (v : Val)
-    (ft : t.Frag) (fd : (dtype cfg false v).Frag) (wt : Ty.WF cfg t) (wd : Ty.WF cfg (dtype cfg false v))
+    (ft : t.Frag false) (fd : (dtype cfg false v).Frag false) (wt : Ty.WF cfg t) (wd : Ty.WF cfg (dtype cfg false v))
     (us : (dtype cfg false v).US) (ok : v.OK) (tv : Val.TyOK cfg v)
     (hd : inst cfg false (dtype cfg false v) v = true)
     (h : asg cfg false t (dtype cfg false v) = true) : inst cfg false t v = true :=
-  sound_all cfg hl _ t _ v (Nat.le_refl _) ⟨ft, fd, wt, wd, us, ok, tv⟩ h hd
+  sound_all cfg false hl _ t _ v (Nat.le_refl _) ⟨ft, fd, wt, wd, us, ok, tv⟩ h hd
 
 /-! ### commonType: the branches that are bounds by themselves -/
 theorem C04_common_unit (cfg : Cfg) (sfh : Bool) (n : Nat) (b : Ty) : commonF cfg sfh (n + 1) .unit b = b := by
